@@ -91,9 +91,12 @@ type Interp struct {
 	PanicAsObligation bool
 	Hooks             map[string]HookFn // per-run call intercepts by full function name; handled=false falls through
 	sched             *scheduler
-	nondetCount       map[string]int
-	curPos            token.Pos
-	LastKill          string
+	// RaceDetect: record memory accesses per goroutine segment and add happens-before race obligations (race.go)
+	RaceDetect  bool
+	raceSt      *raceState
+	nondetCount map[string]int
+	curPos      token.Pos
+	LastKill    string
 }
 
 func NewInterp(p *Program, st *smt.Store, sol *smt.Solver) *Interp {
